@@ -252,6 +252,11 @@ func checkC17(c *Check) {
 	spacingRule(c)
 	c.Floor("functions between the ingester callback and the dispatcher", 2, lineReachesDispatcher(c))
 	rawJSONFromMarshal(c)
+	// a record is complete when it reaches the patterns: an unterminated
+	// tail delivered at end of stream ends in client-chosen text (the part
+	// sshd appends is missing), rules of C12
+	nfr := importRules(c, "C12", checkC12, "whole-records-only: ", "framing-primitive", "read-error-ends-delivery", "once-verbatim-in-order")
+	c.Floor("imported whole-records-only obligations", 6, nfr)
 }
 
 // rawJSONFromMarshal: raw JSON attached to an event of the sshd processor is
